@@ -273,20 +273,28 @@ def e4(ctx):
     cfg = ctx.cfg(gr)
     du = DefUse(cfg)
     ok = False
+    from ..dataflow import value_roots
+    from .common import test_polarity_absent
+    p_etag = gr.params[2] if len(gr.params) > 2 else "etag"
     for n in cfg.stmt_nodes():
         for e in n.exprs():
             for x in ast.walk(e):
-                if isinstance(x, ast.Subscript) and (dotted(x.value) or "").endswith("object_store"):
-                    names = [y.id for y in ast.walk(x.slice) if isinstance(y, ast.Name)]
-                    if names == ["etag"]:
-                        defs = du.reaching(n, "etag")
-                        # param, or (only under `etag is None`) the current etag
-                        ok = all(d.kind == "param" or (d.value is not None and "_get_etag" in src(d.value)) for d in defs)
-                        for d in defs:
-                            if d.kind != "param":
-                                req = cfg.required_conditions(d.node)
-                                if not any(isinstance(t, ast.Compare) and isinstance(t.ops[0], ast.Is) and pol and dotted(t.left) == "etag" for t, pol in req):
-                                    ok = False
+                if isinstance(x, ast.Subscript) and (dotted(x.value) or "").endswith("object_store") and isinstance(x.ctx, ast.Load):
+                    roots = value_roots(du, n, x.slice, conv=("encode", "decode"))
+                    if not roots:
+                        continue
+                    good = True
+                    for o in roots:
+                        if o.kind == "param" and o.name == p_etag and not o.path:
+                            continue
+                        v = o.leaf
+                        # the current etag - only where none was given
+                        if o.kind == "expr" and isinstance(v, ast.Call) and "_get_etag" in (dotted(v.func) or "") and o.node is not None:
+                            req = list(cfg.required_conditions(o.node)) + [(t_, pol_) for t_, pol_, _n in o.conds]
+                            if any(test_polarity_absent(t_, p_etag) is not None and ((test_polarity_absent(t_, p_etag) == "t") == pol_) for t_, pol_ in req):
+                                continue
+                        good = False
+                    ok = good
     obs.append(ctx.ob(ok, gr.qualname, gr.where, "object store indexed by the requested etag", "object_store[etag]; current etag only when none was given",
                       "GitStore._get_raw does not look the blob up by the etag it was asked for"))
     return obs
